@@ -76,9 +76,54 @@ Proof.
   unfold s_wok, s_wreset. intros H. rewrite Forall_map. eapply Forall_impl; [|exact H].
   intros e He. cbn in *. lia.
 Qed.
-Lemma s_can_antitone w w' s : s_sok s -> s_wle w w' -> s_can w' s = true -> s_can w s = true.
+Lemma forallb_ext_in {A} (f g : A -> bool) l : (forall x, In x l -> f x = g x) -> forallb f l = forallb g l.
 Proof.
-  unfold s_can. intros _ Hle H. rewrite forallb_forall in *. intros r Hr. specialize (H r Hr). specialize (Hle (fst r)). lia.
+  induction l as [|x r IH]; intros H; cbn [forallb]; [reflexivity|].
+  rewrite (H x (or_introl eq_refl)), IH; [reflexivity|]. intros y Hy. apply H. right. exact Hy.
+Qed.
+
+(* one request played on the scratch vector: what remains unserved is the excess over the availability of its
+   name; the other names are untouched; the vector stays well formed *)
+Lemma s_play_spec w n : forall q, s_wok w -> 0 <= q ->
+  snd (s_play w n q) = Z.max 0 (q - avail_of w n) /\ s_wok (fst (s_play w n q)) /\
+  forall m, m <> n -> avail_of (fst (s_play w n q)) m = avail_of w m.
+Proof.
+  induction w as [|e r IH]; intros q Hok Hq; cbn [s_play avail_of].
+  - cbn [fst snd]. split; [lia|]. split; [constructor|reflexivity].
+  - inversion Hok as [|? ? He Hr]; subst; cbv beta in He.
+    destruct (e_name e =? n) eqn:En; cbn [andb].
+    + destruct (0 <? q) eqn:Q.
+      * destruct (IH (q - Z.min (e_avail e) q) Hr ltac:(lia)) as [H1 [H2 H3]].
+        destruct (s_play r n (q - Z.min (e_avail e) q)) as [r' rem] eqn:E. cbn [fst snd] in *.
+        pose proof (avail_of_nonneg r n Hr). split; [lia|]. split; [constructor; [cbn; lia|exact H2]|].
+        intros m Hm. cbn [avail_of e_name e_avail]. assert (e_name e =? m = false) as -> by lia. apply H3. exact Hm.
+      * destruct (IH q Hr Hq) as [H1 [H2 H3]]. destruct (s_play r n q) as [r' rem] eqn:E. cbn [fst snd] in *.
+        pose proof (avail_of_nonneg r n Hr). split; [lia|]. split; [constructor; assumption|].
+        intros m Hm. cbn [avail_of]. assert (e_name e =? m = false) as -> by lia. apply H3. exact Hm.
+    + destruct (IH q Hr Hq) as [H1 [H2 H3]]. destruct (s_play r n q) as [r' rem] eqn:E. cbn [fst snd] in *.
+      split; [exact H1|]. split; [constructor; assumption|].
+      intros m Hm. cbn [avail_of]. destruct (e_name e =? m); [rewrite H3 by exact Hm; reflexivity|apply H3; exact Hm].
+Qed.
+(* for non-negative requests on distinct names the cumulative fit test is the per-request one *)
+Lemma s_can_from_each req : forall w, s_wok w -> Forall (fun r => 0 <= snd r) req -> NoDup (map fst req) ->
+  s_can_from w req = forallb (fun r => snd r <=? avail_of w (fst r)) req.
+Proof.
+  induction req as [|[n q] rest IH]; intros w Hok Hq ND; cbn [s_can_from forallb fst snd]; [reflexivity|].
+  inversion Hq as [|? ? Hq1 Hqr]; subst. cbn [map fst snd] in *. inversion ND as [|? ? Hn NDr]; subst.
+  destruct (s_play_spec w n q Hok Hq1) as [H1 [H2 H3]]. destruct (s_play w n q) as [w' rem] eqn:E. cbn [fst snd] in *.
+  destruct (0 <? rem) eqn:R.
+  - assert (q <=? avail_of w n = false) as -> by lia. reflexivity.
+  - assert (q <=? avail_of w n = true) as -> by lia. cbn [andb]. rewrite (IH w' H2 Hqr NDr).
+    apply forallb_ext_in. intros r Hr. rewrite H3; [reflexivity|].
+    intros X. apply Hn. rewrite <- X. apply in_map. exact Hr.
+Qed.
+Lemma s_can_each_iff w s : s_wok w -> s_sok s -> s_can w s = s_can_each w s.
+Proof. intros Hok [Hq ND]. apply s_can_from_each; assumption. Qed.
+
+Lemma s_can_antitone w w' s : s_wok w -> s_wok w' -> s_sok s -> s_wle w w' -> s_can w' s = true -> s_can w s = true.
+Proof.
+  intros Hok Hok' Hs Hle. rewrite (s_can_each_iff w s Hok Hs), (s_can_each_iff w' s Hok' Hs).
+  unfold s_can_each. intros H. rewrite forallb_forall in *. intros r Hr. specialize (H r Hr). specialize (Hle (fst r)). lia.
 Qed.
 
 (* exact conservation: what a placement takes is what its strategy requests, name by name *)
@@ -105,7 +150,9 @@ Proof.
 Qed.
 Lemma s_wplace_conserve w t s : s_wok w -> s_sok s -> s_can w s = true ->
   forall n, avail_of (s_wplace w t s) n = avail_of w n - demand (ss_req s) n.
-Proof. intros Hok [Hq ND] Hc. apply fold_take_conserve; assumption. Qed.
+Proof.
+  intros Hok [Hq ND] Hc. rewrite (s_can_each_iff w s Hok (conj Hq ND)) in Hc. apply fold_take_conserve; assumption.
+Qed.
 (* placing the same strategy on an emptier and on a fuller worker keeps them ordered *)
 Lemma s_wplace_mono a b t s : s_wok a -> s_wok b -> s_sok s -> s_wle a b -> s_can b s = true ->
   s_wle (s_wplace a t s) (s_wplace b t s).
@@ -121,7 +168,7 @@ Record ledger_laws (L : ledger) (wle : wk L -> wk L -> Prop) (wok : wk L -> Prop
   ll_place_le : forall w t s, wok w -> sok s -> can L w s = true -> wle w (wplace L w t s);   (* placing only consumes *)
   ll_place_ok : forall w t s, wok w -> sok s -> can L w s = true -> wok (wplace L w t s);
   ll_reset_ok : forall w, wok w -> wok (wreset L w);
-  ll_antitone : forall w w' s, sok s -> wle w w' -> can L w' s = true -> can L w s = true   (* fitting is antitone *)
+  ll_antitone : forall w w' s, wok w -> wok w' -> sok s -> wle w w' -> can L w' s = true -> can L w s = true  (* fitting is antitone *)
 }.
 Lemma SL_laws : ledger_laws SL s_wle s_wok s_sok.
 Proof.
